@@ -60,11 +60,15 @@ def find_assoc(P, self_ty, name):
 def check_is_native(ctx, inst):
     """AssetInfo::is_native_token (and Asset::is_native_token) are true exactly for the NativeToken variant."""
     P = ctx.P
-    for ty in ("haloswap::asset::AssetInfo", "haloswap::asset::AssetInfoRaw"):
-        f = find_assoc(P, ty, "is_native_token")
+    N = ctx.N
+    try:
+        tys = (N.AssetInfo, N.AssetInfoRaw)
+        native_fns = [N.is_native(t) for t in tys]
+    except AnchorMissing as e:
+        inst.fail("%s:is_native:anchor" % inst.id, "-", "-", "anchor-missing: %s" % e)
+        return
+    for ty, f in zip(tys, native_fns):
         if f is None:
-            if ty.endswith("AssetInfo"):
-                inst.fail("%s:is_native:anchor" % inst.id, "-", "-", "anchor-missing: %s::is_native_token" % ty)
             continue
         tab = fn_table(ctx, f)
         d = "discr(%s)" % P_(f, 0)
@@ -80,25 +84,32 @@ def check_is_native(ctx, inst):
                 inst.fail("%s:is_native:%s" % (inst.id, ty), f.path, common.span_of_block_term(f, b),
                           "is_native_token returns %s under {%s}; expected true exactly for NativeToken" % (ctx.show(v, 2), "; ".join(sorted(cs))))
         if ok and seen_true:
-            inst.site("%s::is_native_token is the variant test" % ty)
+            inst.site("%s is the variant test of %s" % (f.path, ty))
         elif ok:
             inst.fail("%s:is_native:%s:never-true" % (inst.id, ty), f.path, f.span, "is_native_token never returns true")
-    f = find_assoc(P, "haloswap::asset::Asset", "is_native_token")
+    try:
+        f = N.is_native(N.Asset)
+    except AnchorMissing:
+        f = None
     if f is not None:
         tab = fn_table(ctx, f)
-        if len(tab) == 1 and tab[0][1][0] == "call" and generic_path(tab[0][1][3]).endswith("AssetInfo::is_native_token") \
+        if len(tab) == 1 and tab[0][1][0] == "call" and generic_path(tab[0][1][3]) == native_fns[0].path \
                 and set(ctx.roots(tab[0][1][4][0])) == {P_(f, 0, ".info")} and not tab[0][2]:
             inst.site("Asset::is_native_token forwards to AssetInfo::is_native_token(self.info)")
         else:
             inst.fail("%s:is_native:Asset" % inst.id, f.path, f.span, "Asset::is_native_token is not a plain forward to its info's variant test: unrecognised-idiom")
 
 
-def check_equal(ctx, inst, ty="haloswap::asset::AssetInfo"):
+def check_equal(ctx, inst, ty=None):
     """AssetInfo::equal returns true only for same variant and equal identifier."""
     P = ctx.P
-    f = find_assoc(P, ty, "equal")
+    try:
+        ty = ty or ctx.N.AssetInfo
+        f = ctx.N.equal(ty)
+    except AnchorMissing as e:
+        f = None
     if f is None:
-        inst.fail("%s:equal:anchor" % inst.id, "-", "-", "anchor-missing: %s::equal" % ty)
+        inst.fail("%s:equal:anchor" % inst.id, "-", "-", "anchor-missing: equality helper of %s" % ty)
         return
     a, b_ = "discr(%s)" % P_(f, 0), "discr(%s)" % P_(f, 1)
     ident = {"Token": "contract_addr", "NativeToken": "denom"}
@@ -127,17 +138,14 @@ def check_equal(ctx, inst, ty="haloswap::asset::AssetInfo"):
         inst.fail("%s:equal:%s" % (inst.id, va[0]), f.path, common.span_of_block_term(f, b),
                   "for two %s assets the result is %s, expected equality of their %s" % (va[0], ctx.show(v, 3), fld))
     if good and true_regions == {"Token", "NativeToken"}:
-        inst.site("%s::equal is equality of (kind, identifier)" % ty)
+        inst.site("%s is equality of (kind, identifier)" % f.path)
     elif good:
         inst.fail("%s:equal:incomplete" % inst.id, f.path, f.span, "equal() has no equality region for %s" % sorted({"Token", "NativeToken"} - true_regions))
 
 
 def transfer_ctor(P):
-    hits = [f for f in P.prod_fns() if f.kind in ("fn", "assoc_fn") and f.sig and
-            re.search(r"fn\(haloswap::asset::Asset, cosmwasm_std::Addr\) -> std::result::Result<cosmwasm_std::CosmosMsg(<\w+>)?, cosmwasm_std::StdError>", f.sig)]
-    if len(hits) != 1:
-        raise AnchorMissing("transfer constructor fn(Asset, Addr) -> StdResult<CosmosMsg>: %d candidates" % len(hits))
-    return hits[0]
+    from . import names
+    return names.get(P).transfer_ctor
 
 
 def check_transfer_ctor(ctx, inst):
